@@ -15,6 +15,7 @@ import Driver.OpsFiles
 import Driver.OpsEncI
 import Driver.OpsSeqI
 import Driver.OpsOptDoc
+import Driver.OpsWrap
 namespace Mxj.Drv
 
 def dispatch (op : String) (args : List String) : Out :=
@@ -42,6 +43,7 @@ def dispatch (op : String) (args : List String) : Out :=
   | "xrt" => runP opXrt args
   | "xseq" => runP opXseq args
   | "jenc" => runP opJenc args
+  | "jenci" => runP opJenci args
   | "jquote" => runP opJquote args
   | "jdec" => runP opJdec args
   | "jdecf" => runP opJdec args
@@ -54,6 +56,9 @@ def dispatch (op : String) (args : List String) : Out :=
   | "optdoc" => runP opOptDoc args
   | "jfile" => runP opJfile args
   | "jbulk" => runP opJbulk args
+  | "wfrom" => runP opWfrom args
+  | "wat" => runP opWat args
+  | "wpfk" => runP opWpfk args
   | "implonly" => "na"
   | _ => "bad-op"
 
